@@ -279,14 +279,22 @@ fn cli_block(ctx: &Ctx) {
         cases.push((format!("corrupt-chunk-{}", k), x, k * 65536, false));
         cases.push((format!("truncate-in-chunk-{}", k), f[..recs[k].0 + 40].to_vec(), k * 65536, false));
     }
-    for (ci, (name, bytes, prefix_len, ok)) in cases.iter().enumerate() {
-        let inp = wd.write(&format!("in{}.ktl", ci), bytes);
-        let outp = wd.file(&format!("out{}.bin", ci));
-        // every other case: the destination already holds a longer, unrelated file (nothing of it may survive)
+    // destination states: absent; an existing longer, unrelated file; a symbolic link to such a file (nothing of the
+    // old content may survive a write, and all of it must survive when nothing was authenticated)
+    let all: Vec<(usize, usize)> = (0..cases.len()).flat_map(|c| (0..3).map(move |d| (c, d))).collect();
+    for (ci, dest) in all {
+        let (name, bytes, prefix_len, ok) = &cases[ci];
+        let name = &format!("{}{}", name, ["", " onto a longer existing file", " through a symbolic link to a longer existing file"][dest]);
+        let inp = wd.write(&format!("in{}-{}.ktl", ci, dest), bytes);
+        let outp = wd.file(&format!("out{}-{}.bin", ci, dest));
         let stale: Vec<u8> = (0..pt.len() + 50_000).map(|i| (i % 253) as u8 ^ 0x5a).collect();
-        let prefilled = ci % 2 == 1;
-        if prefilled {
+        let prefilled = dest >= 1;
+        if dest == 1 {
             std::fs::write(&outp, &stale).unwrap();
+        } else if dest == 2 {
+            let target = wd.file(&format!("target{}-{}.bin", ci, dest));
+            std::fs::write(&target, &stale).unwrap();
+            let _ = std::os::unix::fs::symlink(target.file_name().unwrap(), &outp);
         }
         let o = Cmd::new(&wd.path, &["decrypt", inp.to_str().unwrap(), "-t", "bob", "-o", outp.to_str().unwrap(), "-k", "kr.txt", "--env-pass"]).pass("bpw").run();
         ctx.eval();
